@@ -2906,16 +2906,15 @@ func (rws *responseWriterState) writeHeader(code int) {
 
 	// Handle informational headers
 	if code >= 100 && code <= 199 {
-		// Per RFC 8297 we must not clear the current header map
-		h := rws.handlerHeader
-
-		_, cl := h["Content-Length"]
-		_, te := h["Transfer-Encoding"]
-		if cl || te {
-			h = h.Clone()
-			h.Del("Content-Length")
-			h.Del("Transfer-Encoding")
-		}
+		// Per RFC 8297 we must not clear the current header map.
+		//
+		// Encode from a copy: the frame is written by the connection's write
+		// goroutine, and writeHeaders stops waiting for it when the stream or the
+		// connection goes away. The handler may then change its header map while
+		// the frame is still being encoded.
+		h := cloneHeader(rws.handlerHeader)
+		h.Del("Content-Length")
+		h.Del("Transfer-Encoding")
 
 		rws.conn.writeHeaders(rws.stream, &writeResHeaders{
 			streamID:    rws.stream.id,
